@@ -112,15 +112,7 @@ theorem include_isolated (c : RCtx) (line : Nat) (args : Bytes) (s : RS) :
         cases st with
         | done =>
           simp only [bind, M.bind]
-          refine AllRet.bind (?_ : AllRet (fun r : Unit × RS => r.2.env = s1.env) (writeM out s1)) (fun _ h => .ret _ h)
-          unfold writeM
-          simp only
-          split
-          · exact .ret _ rfl
-          · refine .call _ _ (fun r => ?_)
-            cases r with
-            | ok => exact .ret _ rfl
-            | failed n => exact .fail _
+          exact AllRet.bind (allRet_writeVerbatim_env out s1) (fun _ h => .ret _ h)
         | brk e => exact .ret _ rfl
         | cont e => exact .ret _ rfl
       · exact .fail _
@@ -139,7 +131,7 @@ theorem include_sees_vars (c : RCtx) (line : Nat) (args : Bytes) (s : RS) (e : E
       wrapAt c.cfg.path ⟨line, true⟩ (fun s0 =>
         (c.inc line (joinPath (dirPath c.cfg.path) rel) s.env).bind fun (st, out) =>
           match st with
-          | .done => (writeM out s0).bind fun (_, s1) => .ret (.done, s1)
+          | .done => (writeVerbatimM out s0).bind fun (_, s1) => .ret (.done, s1)
           | st => .ret (st, s0)) s := by
   unfold renderNode
   simp only [wrapAt, bind, M.bind, M.getEnv, Prog.bind, he, Res.mapErr, M.ofRes, pure, M.pure, hv, Prog.bind_assoc]
